@@ -19,6 +19,7 @@ def run(ctx):
     sig.salt_fed_at_every_hasher(ctx, P)
     sig.salt_length_checked_where_hashed(ctx, P)
     sig.hash_dispatch_tables_agree(ctx, P)
+    sig.onepass_match_depends_on_header_fields_only(ctx, P)
     c11.salt_tables(ctx, P)
     c14.hasher_rules(ctx, P)
     c14.reader_rules(ctx, P)
